@@ -22,8 +22,22 @@ func (ex *Exec) divModPos(a Term, m *big.Int) (Term, Term) {
 	if qr, ok := ex.divMemo[key]; ok {
 		return qr[0], qr[1]
 	}
+	// a = g*a', m = g*m': floor(a/m) = floor(a'/m') and a mod m = g*(a' mod m'): smaller coefficients for the solver
+	if m.Sign() > 0 {
+		if g := new(big.Int).GCD(nil, nil, content(a), m); g.Cmp(big.NewInt(1)) > 0 && g.Cmp(m) < 0 {
+			if a2, ok := divExact(a, g); ok {
+				q, r2 := ex.divModPos(a2, new(big.Int).Quo(m, g))
+				r := Mul(r2, IntB(g))
+				ex.divMemo[key] = [2]Term{q, r}
+				return q, r
+			}
+		}
+	}
 	q, r := ex.aux("q"), ex.aux("r")
 	ex.assume(And(Eq(a, Add(Mul(q, IntB(m)), r)), And(Ge(r, IntC(0)), Lt(r, IntB(m)))))
+	if m.Sign() > 0 && ex.nonneg(a) {
+		ex.nnVars[q.V[0]] = true
+	}
 	ex.divMemo[key] = [2]Term{q, r}
 	return q, r
 }
@@ -43,7 +57,7 @@ func (ex *Exec) nameT(t Term) Term {
 		v = ex.aux("t")
 	}
 	ex.assume(Eq(v, t))
-	return v
+	return v // (assume -> learnSigns marks v non-negative when t is)
 }
 
 func itoa(i int) string { return big.NewInt(int64(i)).String() }
@@ -56,14 +70,19 @@ func (ex *Exec) chopRoundX(d Term) Term {
 	if q, ok := divExact(d, prec); ok {
 		return q // no remainder: rounding is the identity
 	}
-	d = ex.nameT(d)
-	a := ex.nameT(Abs(d))
+	if !ex.nonneg(d) {
+		d = ex.nameT(d)
+	}
+	a := d
+	if !ex.nonneg(d) {
+		a = ex.nameT(Abs(d))
+	}
 	q, r := ex.divModPos(a, prec)
 	half := IntB(new(big.Int).Quo(prec, big.NewInt(2)))
 	_, odd := ex.divModPos(q, big.NewInt(2))
 	up := Or(Gt(r, half), And(Eq(r, half), Eq(odd, IntC(1))))
 	res := ex.nameT(Ite(up, Add(q, IntC(1)), q))
-	return ex.nameT(Ite(Lt(d, IntC(0)), Neg(res), res))
+	return ex.nameT(Ite(ex.ltZero(d), Neg(res), res))
 }
 
 func constChop(d *big.Int) Term {
@@ -136,6 +155,13 @@ func (ex *Exec) truncDivX(a, b Term) Term {
 			return q
 		}
 		absB := new(big.Int).Abs(b.I)
+		if ex.nonneg(a) {
+			q, _ := ex.divModPos(a, absB)
+			if b.I.Sign() < 0 {
+				return Neg(q)
+			}
+			return q
+		}
 		a = ex.nameT(a)
 		q, _ := ex.divModPos(ex.nameT(Abs(a)), absB)
 		neg := Lt(a, IntC(0))
@@ -145,11 +171,11 @@ func (ex *Exec) truncDivX(a, b Term) Term {
 		return ex.nameT(Ite(neg, Neg(q), q))
 	}
 	a, b = ex.nameT(a), ex.nameT(b)
-	absA, absB := ex.nameT(Abs(a)), ex.nameT(Abs(b))
+	absA, absB := ex.nameT(ex.absT(a)), ex.nameT(ex.absT(b))
 	q, r := ex.aux("q"), ex.aux("r")
 	ex.assume(And(Eq(absA, Add(Mul(q, absB), r)), And(Ge(r, IntC(0)), Lt(r, absB))))
 	ex.assume(Ge(q, IntC(0)))
-	same := Or(And(Ge(a, IntC(0)), Gt(b, IntC(0))), And(Lt(a, IntC(0)), Lt(b, IntC(0))))
+	same := Or(And(Not(ex.ltZero(a)), Gt(b, IntC(0))), And(ex.ltZero(a), ex.ltZero(b)))
 	return ex.nameT(Ite(same, q, Neg(q)))
 }
 
@@ -226,8 +252,8 @@ func init() {
 			m[mi+"GTE"] = cmpI(Ge)
 			m[mi+"Equal"] = cmpI(Eq)
 			m[mi+"Neg"] = un(Neg)
-			m[mi+"Abs"] = un(Abs)
-			m[mi+"IsNegative"] = pred(func(a Term) Term { return Lt(a, IntC(0)) })
+			m[mi+"Abs"] = func(ex *Exec, fr *frame, cc *ssa.CallCommon, a []Value) Value { return VInt{ex.absT(ti(a[0]))} }
+			m[mi+"IsNegative"] = func(ex *Exec, fr *frame, cc *ssa.CallCommon, a []Value) Value { return VBool{ex.ltZero(ti(a[0]))} }
 			m[mi+"IsZero"] = pred(func(a Term) Term { return Eq(a, IntC(0)) })
 			m[mi+"IsPositive"] = pred(func(a Term) Term { return Gt(a, IntC(0)) })
 			m[mi+"IsNil"] = func(ex *Exec, fr *frame, cc *ssa.CallCommon, a []Value) Value { return VBool{BoolC(false)} }
@@ -299,12 +325,12 @@ func init() {
 		m[ld+"GT"] = cmpI(Gt)
 		m[ld+"GTE"] = cmpI(Ge)
 		m[ld+"Equal"] = cmpI(Eq)
-		m[ld+"IsNegative"] = pred(func(a Term) Term { return Lt(a, IntC(0)) })
+		m[ld+"IsNegative"] = func(ex *Exec, fr *frame, cc *ssa.CallCommon, a []Value) Value { return VBool{ex.ltZero(ti(a[0]))} }
 		m[ld+"IsZero"] = pred(func(a Term) Term { return Eq(a, IntC(0)) })
 		m[ld+"IsPositive"] = pred(func(a Term) Term { return Gt(a, IntC(0)) })
 		m[ld+"IsNil"] = func(ex *Exec, fr *frame, cc *ssa.CallCommon, a []Value) Value { return VBool{BoolC(false)} }
 		m[ld+"IsInteger"] = func(ex *Exec, fr *frame, cc *ssa.CallCommon, a []Value) Value {
-			_, r := ex.divModPos(ex.nameT(Abs(ti(a[0]))), prec)
+			_, r := ex.divModPos(ex.nameT(ex.absT(ti(a[0]))), prec)
 			return VBool{Eq(r, IntC(0))}
 		}
 		m[ld+"Mul"] = func(ex *Exec, fr *frame, cc *ssa.CallCommon, a []Value) Value {
